@@ -83,4 +83,11 @@ theorem lenBytes_eq (c : UInt64) (h : c.toNat < 2 ^ 61) : lenBytes 8 (c <<< 3) =
   refine ⟨?_, ?_, ?_, ?_, ?_, ?_, ?_, ?_⟩ <;> apply UInt8.toNat_inj.mp <;>
     simp [UInt64.toNat_toUInt8, UInt64.toNat_shiftRight, UInt64.toNat_shiftLeft, Nat.shiftRight_eq_div_pow, Nat.shiftLeft_eq] <;> omega
 
+/-- the same without a bound on `c`: `c <<< 3` keeps the low 64 bits of `8·c`, and so does `Spec.be64` -/
+theorem lenBytes_eq_all (c : UInt64) : lenBytes 8 (c <<< 3) = Spec.be64 (8 * c.toNat) := by
+  simp only [lenBytes, Spec.be64, List.range, List.range.loop, List.map]
+  simp only [List.cons.injEq, and_true]
+  refine ⟨?_, ?_, ?_, ?_, ?_, ?_, ?_, ?_⟩ <;> apply UInt8.toNat_inj.mp <;>
+    simp [UInt64.toNat_toUInt8, UInt64.toNat_shiftRight, UInt64.toNat_shiftLeft, Nat.shiftRight_eq_div_pow, Nat.shiftLeft_eq] <;> omega
+
 end Nstd.Sha
